@@ -525,6 +525,11 @@ def l4_no_panic_in_listener_task(ctx, service):
                     work.append(c2.target)
     sub = Ctx(prog, "C07", ctx.tier)
     c07.run(sub)
+    # C07's own reviewed-safe list is matched the way C07 matches it: a site whose function was renamed (or whose ordinal shifted) is the same
+    # reviewed site at a new place (relocation, with the entry's premise re-evaluated) - not a new panic site of the listener task
+    from ..engine import relocate
+    _unlisted = [o for o in sub.obs if o.verdict == "violation"]
+    relocate(sub, _unlisted, {}, set())
     n = 0
     disp = {prog.display(f): f for f in inline_fns}
     for o in sub.obs:
